@@ -29,9 +29,13 @@ impl VxCaptures {
 }
 #[verifier::external_body]
 pub fn vx_match_text(m: VxMatch) -> (r: String) { unimplemented!() }
-// `captures.get(idx).and_then(|v| v.as_str().parse::<f64>().ok()).map(|v| (v * 10000.0).round() as u32)`: floating point is not modelled
+// floating point is not modelled: `v.as_str().parse::<f64>()` and `(v * 10000.0).round() as u32` are opaque functions of their operand
+#[derive(Clone, Copy)]
+pub struct VxF64 { pub _p: u8 }
 #[verifier::external_body]
-pub fn vx_capture_timestamp(c: &VxCaptures, idx: usize) -> (r: Option<u32>) { unimplemented!() }
+pub fn vx_parse_f64(m: &VxMatch) -> (r: Result<VxF64, VxRwErr>) { unimplemented!() }
+#[verifier::external_body]
+pub fn vx_f64_to_dms(v: VxF64) -> (r: u32) { unimplemented!() }
 #[verifier::external_body]
 pub struct VxNameIter { _p: u8 }
 impl VxNameIter {
@@ -61,8 +65,9 @@ pub open spec fn same_but_text_and_timestamp(a: DltMessage, b: DltMessage) -> bo
 //@   sub R12 `self` => `vx_self` *
 //@   sub R11 `msg.payload_as_text().map(|s| s.into_owned())` => `vx_payload_as_text_owned(msg)`
 //@   sub R13 `for (idx, capt_name) in r.payload_regex.capture_names().enumerate() {` => `let mut vx_names = r.payload_regex.capture_names(); let mut vx_j: usize = 0; loop { let capt_name = match vx_names.next() { Some(vx_n) => vx_n, None => break }; let idx = vx_j; if vx_j < usize::MAX { vx_j += 1; }`
-//@   sub R11 `captures.get(idx).map(|v| v.as_str().to_owned())` => `(match captures.get(idx) { Some(v) => Some(vx_match_text(v)), None => None })`
-//@   sub R11 `captures .get(idx) .and_then(|v| v.as_str().parse::<f64>().ok()) .map(|v| (v * 10000.0).round() as u32)` => `vx_capture_timestamp(&captures, idx)`
+//@   sub R11 `v.as_str().to_owned()` => `vx_match_text(v)` ?
+//@   sub R11 `v.as_str().parse::<f64>()` => `vx_parse_f64(&v)` ?
+//@   sub R11 `(v * 10000.0).round() as u32` => `vx_f64_to_dms(v)` ?
 //@   r13 1
 //@   spec
 //@|    ensures
